@@ -210,6 +210,12 @@ def binop(interp, op, a, b, st, node):
             return vconst(_pyop(name, a.const, b.const))
         except Exception:
             pass
+    if name == "mod" and b.has_const and b.const == 1 and a.kind == "int":
+        return vconst(0)
+    if name in ("mul", "div", "floordiv") and b.has_const and b.const == 1 and not isinstance(b.const, bool) and a.kind in ("int", "float", "arr"):
+        return a
+    if name == "mul" and a.has_const and a.const == 1 and not isinstance(a.const, bool) and b.kind in ("int", "float", "arr"):
+        return b
     # integer dims
     if a.kind == "int" and b.kind == "int" and a.dim is not None and b.dim is not None:
         d = None
@@ -504,6 +510,64 @@ def _is_basic_index(idx):
     return True
 
 
+_FULL = None
+
+
+def _full_slice():
+    global _FULL
+    if _FULL is None:
+        n = vconst(None)
+        _FULL = V("slice", T("slice", n.term, n.term, n.term), items=[n, n, n])
+    return _FULL
+
+
+def _canon_index(interp, base, idx):
+    """identity selections are dropped: a[:n] on an axis of extent n, a[:, [0]] on an
+    axis of extent 1; returns None if the whole index is the identity"""
+    items = idx.items if idx.kind == "tuple" and idx.items is not None else [idx]
+    if any(it.kind in ("ellipsis", "none") for it in items):
+        return idx
+    sh = base.shape
+    if len(items) > len(sh):
+        return idx
+    out = []
+    changed = False
+    for ax, it in enumerate(items):
+        d = sh[ax]
+        if it.kind == "slice":
+            lo, hi, step = it.items
+            lo0 = lo.kind == "none" or (lo.has_const and lo.const == 0)
+            st1 = step.kind == "none" or (step.has_const and step.const == 1)
+            hid = None
+            if hi.kind == "none":
+                hid = d
+            elif hi.has_const and isinstance(hi.const, int):
+                hid = Dim(hi.const)
+            elif hi.dim is not None:
+                hid = hi.dim
+            if lo0 and st1 and hid is not None and hid == d:
+                if not (lo.kind == "none" and hi.kind == "none" and step.kind == "none"):
+                    changed = True
+                out.append(_full_slice())
+                continue
+        elif it.kind == "list" and it.items is not None and len(it.items) == 1 and it.items[0].has_const and it.items[0].const == 0 and d.is_const() and d.c == 1:
+            changed = True
+            out.append(_full_slice())
+            continue
+        out.append(it)
+    if all(o is _full_slice() for o in out):
+        return None
+    if not changed:
+        return idx
+    while out and out[-1] is _full_slice():
+        out.pop()
+    if len(out) == 1 and idx.kind != "tuple":
+        return out[0]
+    if len(out) == 1:
+        return out[0]
+    return V("tuple", T("tuple", *[x.term for x in out]), items=out, labels=idx.labels)
+
+
 def subscript(interp, base, idx, st, node):
     if base.kind == "maybe":
         base = base.items[0]
@@ -527,6 +591,10 @@ def subscript(interp, base, idx, st, node):
         return V("unk", T("getitem", base.term, idx.term), labels=labels)
     if base.kind == "ext" or base.kind == "obj":
         return V("unk", T("getitem", base.term, idx.term), labels=labels, orig=base.orig)
+    if base.kind == "arr" and base.shape is not None:
+        idx = _canon_index(interp, base, idx)
+        if idx is None:
+            return base
     term = T("getitem", base.term, idx.term)
     if base.kind in ("arr", "list", "tuple"):
         shape = index_shape(interp, base, idx, st, node)
